@@ -1,14 +1,15 @@
-//! cgv — runtime monitors for the 20 cgmath properties (see /verif/DESIGN.md).
+//! cgv_core — shared machinery of the cgmath runtime monitors (see /verif/DESIGN.md):
+//! shadow scalars, clause runner, generators, reference model, evidence.
 
-mod conv;
-mod fw;
-mod gen;
-mod iv;
-mod model;
-mod props;
-mod q;
-mod sc;
-mod selftest;
+pub mod bits;
+pub mod conv;
+pub mod fw;
+pub mod gen;
+pub mod iv;
+pub mod model;
+pub mod q;
+pub mod sc;
+pub mod selftest;
 
 use std::time::Instant;
 
@@ -19,62 +20,24 @@ pub fn verif_root() -> String {
     std::env::var("VERIF_ROOT").unwrap_or_else(|_| "/verif".to_string())
 }
 
-struct Prop {
-    id: &'static str,
-    clauses: fn() -> Vec<fw::Clause>,
-    extra: fn(&RunCfg, &mut Extra),
-    rule: &'static str,
-    assume: &'static [&'static str],
+pub struct Prop {
+    pub id: &'static str,
+    pub clauses: fn() -> Vec<fw::Clause>,
+    pub extra: fn(&RunCfg, &mut Extra),
+    pub rule: &'static str,
+    pub assume: &'static [&'static str],
 }
 
-fn no_extra(_: &RunCfg, _: &mut Extra) {}
-
-macro_rules! prop {
-    ($id:expr, $m:ident) => {
-        Prop { id: $id, clauses: props::$m::clauses, extra: no_extra, rule: props::$m::RULE, assume: props::$m::ASSUME }
-    };
-    ($id:expr, $m:ident, $extra:ident) => {
-        Prop { id: $id, clauses: props::$m::clauses, extra: props::$m::$extra, rule: props::$m::RULE, assume: props::$m::ASSUME }
-    };
-}
-
-fn registry() -> Vec<Prop> {
-    vec![
-        prop!("C01", c01, native_ints),
-        prop!("C02", c02),
-        prop!("C03", c03, native_ints),
-        prop!("C04", c04),
-        prop!("C05", c05),
-        prop!("C06", c06),
-        prop!("C07", c07),
-        prop!("C08", c08),
-        prop!("C09", c09),
-        prop!("C10", c10, native),
-        prop!("C11", c11),
-        prop!("C12", c12, native_ints),
-        prop!("C13", c13, native),
-        prop!("C14", c14),
-        prop!("C15", c15, native),
-        prop!("C16", c16, native),
-        prop!("C17", c17, native),
-        prop!("C18", c18, native),
-        prop!("C19", c19, native),
-        prop!("C20", c20, native),
-        // REGISTRY-END
-    ]
-}
+pub fn no_extra(_: &RunCfg, _: &mut Extra) {}
 
 fn usage() -> ! {
-    eprintln!("usage: cgv <ID> [--tier quick|thorough] [--seed N] [--threads N] [--replay FILE] [--merge-json FILE] [--cases N]");
+    eprintln!("usage: cgv-<id> [--tier quick|thorough] [--seed N] [--threads N] [--replay FILE] [--merge-json FILE] [--cases N]");
     std::process::exit(2);
 }
 
-fn main() {
+/// main of every per-property binary
+pub fn main_for(p: Prop) -> ! {
     let args: Vec<String> = std::env::args().collect();
-    if args.len() < 2 {
-        usage();
-    }
-    let id = args[1].to_uppercase();
     let mut tier = match std::env::var("VERIF_TIER").as_deref() {
         Ok("thorough") => Tier::Thorough,
         _ => Tier::Quick,
@@ -84,7 +47,7 @@ fn main() {
     let mut replay: Option<String> = None;
     let mut merge: Vec<String> = vec![];
     let mut cases: Option<u64> = None;
-    let mut i = 2;
+    let mut i = 1;
     while i < args.len() {
         match args[i].as_str() {
             "--tier" => { i += 1; tier = if args[i] == "thorough" { Tier::Thorough } else { Tier::Quick }; }
@@ -93,20 +56,15 @@ fn main() {
             "--replay" => { i += 1; replay = Some(args[i].clone()); }
             "--merge-json" => { i += 1; merge.push(args[i].clone()); }
             "--cases" => { i += 1; cases = args[i].parse().ok(); }
+            "--selftest" => {}
             _ => usage(),
         }
         i += 1;
     }
     fw::install_panic_hook();
-    if id == "SELFTEST" {
+    if args.iter().any(|a| a == "--selftest") {
         std::process::exit(selftest::run());
     }
-    let reg = registry();
-    let Some(p) = reg.iter().find(|p| p.id == id) else {
-        eprintln!("unknown property {id}");
-        std::process::exit(2);
-    };
-
     if let Some(path) = replay {
         let txt = std::fs::read_to_string(&path).expect("replay file");
         let v: serde_json::Value = serde_json::from_str(&txt).expect("replay json");
@@ -155,5 +113,5 @@ fn main() {
         "property={} tier={:?} seed={} evaluations={} distinct_nontrivial={} violations={} exit={} wall={:.1}s",
         p.id, tier, seed, evidence["coverage"]["evaluations"], evidence["coverage"]["distinct_nontrivial"], evidence["violations"], exit, start.elapsed().as_secs_f64()
     );
-    std::process::exit(exit);
+    std::process::exit(exit)
 }
